@@ -46,6 +46,15 @@ NET_RENAMES = [
     ("dial.go", "func (d *Dialer) DialContext(ctx context.Context, network, address string) (Conn, error) {", "func (d *Dialer) verifOrigDialContext(ctx context.Context, network, address string) (Conn, error) {"),
 ]
 
+SYNC_RENAMES = [
+    ("mutex.go", "func (m *Mutex) Lock() {", "func (m *Mutex) verifOrigLock() {"),
+    ("mutex.go", "func (m *Mutex) Unlock() {", "func (m *Mutex) verifOrigUnlock() {"),
+    ("rwmutex.go", "func (rw *RWMutex) Lock() {", "func (rw *RWMutex) verifOrigLock() {"),
+    ("rwmutex.go", "func (rw *RWMutex) Unlock() {", "func (rw *RWMutex) verifOrigUnlock() {"),
+    ("rwmutex.go", "func (rw *RWMutex) RLock() {", "func (rw *RWMutex) verifOrigRLock() {"),
+    ("rwmutex.go", "func (rw *RWMutex) RUnlock() {", "func (rw *RWMutex) verifOrigRUnlock() {"),
+]
+
 # files that exist only in the overlay: export shims giving the harness the real unexported constructors
 REPO_SHIMS = {
     "/repo/pkg/pdfcpu/primitives/zz_verif_export.go": """// added by /verif through go build -overlay; not part of the repository
@@ -133,6 +142,8 @@ def main():
         f.write(open(os.path.join(here, "zz_verif_os.go.txt")).read())
     replace[os.path.join(goroot, "src", "os", "zz_verif.go")] = zz
     patch_pkg(goroot, out, "net", NET_RENAMES, "zz_verif_net.go.txt", replace)
+    patch_pkg(goroot, out, "sync", SYNC_RENAMES, "zz_verif_sync.go.txt", replace)
+    patch_pkg(goroot, out, "runtime", [], "zz_verif_runtime.go.txt", replace)
     repo = os.environ.get("VERIF_REPO", "/repo")
     os.makedirs(os.path.join(out, "shims"), exist_ok=True)
     for i, (dst, src) in enumerate(sorted(REPO_SHIMS.items())):
